@@ -84,7 +84,7 @@ class EngineLineCropper(object):
         output_y_positions = line_interpf(output_x_positions) # get source baseline y positions in target pixels
 
         d_x = np.full_like(output_x_positions, 0.1)
-        d_y = output_y_positions - line_interpf(output_x_positions + 0.1)
+        d_y = line_interpf(output_x_positions + 0.1) - output_y_positions
         norm_scales = (d_x**2 + d_y**2) ** 0.5 # get normals
 
         norm_x = -d_y / norm_scales
